@@ -57,7 +57,7 @@ class Gen:
         if k == 1:
             a = r.choice(["a", "b", "c"])
             return f"o.{a}", ("attr", a)
-        key = r.choice(["p", "q", 1, (1, 2)]) if r.randrange(3) else None
+        key = r.choice(["p", "q", 1, 2, 2, (1, 2)]) if r.randrange(3) else None
         if key is None:
             return f"l[{r.randrange(-3, 3)}]", None
         return f"d[{key!r}]", ("key", key)
@@ -112,8 +112,32 @@ class Gen:
             return self.if_lines(depth)
         return [self.stmt()]
 
+    def pattern(self, depth=0):
+        r = self.r
+        n = r.randrange(1, 4)
+        parts, vals = [], []
+        for _ in range(n):
+            if depth < 2 and r.randrange(4) == 0:
+                p, v = self.pattern(depth + 1)
+                parts.append(p); vals.append(v)
+            else:
+                t, w = self.target()
+                self.commit(w)
+                parts.append(t); vals.append(self.expr(2))
+        br = r.choice(["()", "[]"])
+        pat = br[0] + ", ".join(parts) + ("," if n == 1 and br == "()" else "") + br[1]
+        kind = r.randrange(4)
+        seq = ", ".join(vals)
+        val = [f"({seq},)", f"[{seq}]", f"iter([{seq}])", f"reversed([{seq}][::-1])"][kind]
+        return pat, val
+
     def stmt(self):
         r = self.r
+        if r.randrange(7) == 0:
+            p, v = self.pattern()
+            if r.randrange(3) == 0:
+                return f"{self.fresh_name()} = {p} = {v.replace('iter(', 'list(').replace('reversed(', 'list(')}"
+            return f"{p} = {v}"
         k = r.randrange(12)
         if k <= 3:
             n = 1 if r.randrange(3) else r.randrange(2, 4)
@@ -137,7 +161,7 @@ class Gen:
         self.names, self.attrs, self.keys = ["x", "y", "z", "_", "k", "v", "it", "self", "total", "n1"], [], []
         L = ["o = type('O', (), {'cnt': 0})()", "d = {}", "l = [3, 1, 2]", "log = []",
              "note = lambda v: (log.append(repr(v)[:40] if isinstance(v, (int, float, str, list, tuple)) else type(v).__name__), v)[1]",
-             "x = y = z = _ = k = v = it = self = total = n1 = 0", "o.a = o.b = o.c = d['p'] = d['q'] = d[1] = d[(1, 2)] = 0"]
+             "x = y = z = _ = k = v = it = self = total = n1 = 0", "o.a = o.b = o.c = d['p'] = d['q'] = d[1] = d[2] = 0"]
         L += ["B = type('B', (), {'__init__': lambda s, v: setattr(s, 'v', v), '__bool__': lambda s: (log.append('bool:%r' % (s.v,)), bool(s.v))[1]})",
               "R = type('R', (), {'__bool__': lambda s: 1 // 0, '__len__': lambda s: 1 // 0})()"]
         for _ in range(self.r.randrange(3, 14)):
